@@ -194,6 +194,10 @@ def run(ctx):
                          (b"/mail/box.mbox|/MBOX-MESSAGE/9999\t!\r\n", False), (b"/maild|/MAILDIR-MESSAGE/77\t!\r\n", False),
                          (b"/mail/box.mbox|/MBOX-MESSAGE/9999\t$\r\n", False), (b"/mail/box.mbox|/MBOX-MESSAGE/3\t+\r\n", False),
                          (b"/nonexist|/MBOX-MESSAGE/1\t!\r\n", False), (b"/arch.zip/no-such-member\t!\r\n", False),
+                         # one directory through one protocol after another (the later ones are served from the cache file the first one wrote)
+                         (b"/docs\r\n", False), (b"/docs\t$\r\n", False), (b"GET /docs HTTP/1.0\r\n\r\n", False), (b"GET /wap/docs HTTP/1.0\r\n\r\n", False),
+                         (b"/docs\t+\r\n", False), (b"gemini://h/docs\r\n", True), (b"h /docs 0\r\n", False), (b"/docs\r\n", False),
+                         (b"\t$\r\n", False), (b"GET / HTTP/1.0\r\n\r\n", False), (b"\r\n", False),
                          # two scripts with the same modification second, one after the other
                          (b"/hello.pyg\r\n", False), (b"/docs/two.pyg\r\n", False), (b"/hello.pyg\t!\r\n", False), (b"/docs/two.pyg\t+\r\n", False)]
                 requests = fixed + requests
@@ -281,12 +285,27 @@ def run(ctx):
     # end to end: Model/Serve.answer (request line -> whole response) vs the real server, byte for byte
     import sitecorr
     sitecorr.compare_answers(ctx, res, ctx.n(3, 30), "C03")
+    # requests that overlap (another request served, start to finish, while this one is in the middle of rewriting a cache
+    # file): each still gets the one complete response it gets alone.  The forcing machinery is C14's.
+    from props import c14
+    sub = Result()
+    c14.forced_interleavings(ctx, sub)
+    res.evaluations += sub.evaluations
+    res.nontrivial |= {("overlap",) + tuple(x) for x in sub.nontrivial}
+    for k_, n_ in sub.distribution.items():
+        res.count("overlap:" + k_, n_)
+    for v_ in sub.violations:
+        res.violation("C03:overlapping-requests:" + v_["key"].split(":")[-1], "a request overlapping another one is not answered with the response it gets alone",
+                      v_["input"], observed=v_["observed"], required=v_["required"], replay=dict(v_["replay"] or {}, handlers="shipped"))
     res.degraded = list(pyg.degraded) + [d for d in res.degraded if d not in pyg.degraded]
     return res
 
 
 def replay(data):
     rp = data["violation"]["replay"]
+    if rp.get("forced"):
+        print("overlapping requests, forced as in harness/props/c14.py forced_interleavings:", rp)
+        return 0
     tree = pyg.Tree()
     try:
         trees.standard(tree, hostile_content=False)
